@@ -16,6 +16,9 @@ import ScrapliModel.PromptClass
   bytes (the bound every scrapli pattern uses).  Where the vendor prints something in front of the
   hostname (IOS-XR location, EOS / Junos `user@`) the bound applies to the whole head
   (`head63 x = x ∩ Σ{1,63}`, with user and host of any length inside it).
+  BOUNDS ACTUALLY CHECKED (kernel time / memory of the certificate check grows with
+  hostname length × pattern ambiguity): IOS-XE, IOS-XR, EOS exec / privilege_exec: the full 63;
+  NX-OS (all modes), EOS configuration and session modes: hostname ≤ 32; Junos: `user@host` ≤ 32.
   The NX-OS session pattern bounds the hostname by 32: NX-OS session prompts use host ≤ 32.
   Reserved sub-mode names are removed from `sub` where the vendor uses them for another mode:
     IOS-XE:  names ending in `tcl`         (the `(…tcl)` decoration is tclsh)
@@ -90,16 +93,18 @@ def iosxr : List Mode := [
 def maintOpt : RE := opt (s "(maint-mode)")
 def nxosSub : RE := minus sub (alts [startsWith "tcl", s "s", startsWith "s-", containsS "config-"])
 def endsTclCI : RE := cat all (cats [s "-", oneOf "tT", oneOf "cC", oneOf "lL"])
-def nxosPrivHostFull : RE := minus host endsTclCI
-def nxosPrivHost : RE := minus host (alt endsTclCI (containsS "-tcl"))
-def nxosExec : Mode := ⟨"exec", ["exec"], cats [host, maintOpt, s ">", blankOpt]⟩
+/-- NX-OS hostnames are checked up to 32 bytes (see the note on bounds at the top) -/
+def nxHost : RE := hostN 32
+def nxosPrivHostFull : RE := minus nxHost endsTclCI
+def nxosPrivHost : RE := minus nxHost (alt endsTclCI (containsS "-tcl"))
+def nxosExec : Mode := ⟨"exec", ["exec"], cats [nxHost, maintOpt, s ">", blankOpt]⟩
 def nxosPriv (h : RE) : Mode := ⟨"privilege_exec", ["privilege_exec"], cats [h, maintOpt, s "#", blankOpt]⟩
 def nxosConfig (h sb : RE) : Mode := ⟨"configuration", ["configuration"], cats [h, maintOpt, configDeco sb, blankOpt]⟩
-def nxosCfgHost : RE := minus host (containsS "config-")
-def nxosTclsh : Mode := ⟨"tclsh", ["tclsh"], cat (alts [cat host (s "-tcl#"), cat host (s "(config-tcl)#"), s ">",
-      cat host (s "(maint-mode-tcl)#"), cat host (s "(maint-mode)(config-tcl)#")]) blankOpt⟩
+def nxosCfgHost : RE := minus nxHost (containsS "config-")
+def nxosTclsh : Mode := ⟨"tclsh", ["tclsh"], cat (alts [cat nxHost (s "-tcl#"), cat nxHost (s "(config-tcl)#"), s ">",
+      cat nxHost (s "(maint-mode-tcl)#"), cat nxHost (s "(maint-mode)(config-tcl)#")]) blankOpt⟩
 def nxos : List Mode := [nxosExec, nxosPriv nxosPrivHost, nxosConfig nxosCfgHost nxosSub, nxosTclsh]
-def nxosFull : List Mode := [nxosPriv nxosPrivHostFull, nxosConfig host nxosSub]
+def nxosFull : List Mode := [nxosPriv nxosPrivHostFull, nxosConfig nxHost nxosSub]
 /-- after `register_configuration_session`: every registered session shows `host(config-s…)#`
     (the NX-OS pattern does not depend on the name: all sessions form one share group) -/
 def nxosSessionMode (names : List String) : Mode :=
@@ -111,11 +116,13 @@ def nxosSFull : List Mode := [nxosConfig nxosCfgHost nxosSub]
 
 /-! ### Arista EOS — `host>` (EOS prints no `user@`); sessions `host(config-s-<first 6 chars of name>[-<sub>])#` -/
 def eosHead : RE := host
+/-- in the configuration-like modes EOS hostnames are checked up to 32 bytes (see the note on bounds) -/
+def eosCfgHead : RE := hostN 32
 def eosSub : RE := minus sub (startsWith "s-")
 def eos : List Mode := [
   ⟨"exec", ["exec"], cats [eosHead, s ">", blankOpt]⟩,
   ⟨"privilege_exec", ["privilege_exec"], cats [eosHead, s "#", blankOpt]⟩,
-  ⟨"configuration", ["configuration"], cats [eosHead, configDeco eosSub, blankOpt]⟩]
+  ⟨"configuration", ["configuration"], cats [eosCfgHead, configDeco eosSub, blankOpt]⟩]
 def first6 (n : String) : String := String.ofList (n.toList.take 6)
 /-- one mode per distinct 6-character prefix; sessions sharing the prefix are a share group
     (EOS prints only the first six characters, the truncation in scrapli is deliberate) -/
@@ -123,14 +130,15 @@ def eosSessionModes (head : RE) (names : List String) : List Mode :=
   (names.map first6).eraseDups.map (fun p =>
     ⟨"session:" ++ p, names.filter (fun n => first6 n == p),
      cats [head, s "(config-s-", s p, opt (cat (s "-") sub), s ")#", blankOpt]⟩)
-def eosS (names : List String) : List Mode := eos ++ eosSessionModes (minus eosHead (containsS "_")) names
-def eosSFull (names : List String) : List Mode := eosSessionModes eosHead names
+def eosS (names : List String) : List Mode := eos ++ eosSessionModes (minus eosCfgHead (containsS "_")) names
+def eosSFull (names : List String) : List Mode := eosSessionModes eosCfgHead names
 
 /-! ### Juniper Junos — `user@host>`, `user@host#` with the optional banner line the patterns admit
     (`{master:0}`, `{primary:node0}`, `{master}`; in configuration mode followed by `[edit]`),
     shell `%` / `$`, root shell `root@host:~ #`, `root@host%`, `root@%`, `root@host:RE:0%`.
     The three configuration levels show the same prompt (share group). -/
-def junosHead : RE := head63 (cats [userAny, s "@", hostAny])
+/-- the Junos `user@host` head is checked up to 32 bytes (see the note on bounds) -/
+def junosHead : RE := .and (cats [userAny, s "@", hostAny]) (rep any 1 32)
 def banner : RE := cats [s "{", plus (cls bmLower),
   opt (cats [s ":", star (cls bmLower), digit]), s "}"]
 def pathSeg : RE := plus (cls (bmAlnum ||| bmOfList [95, 46, 45]))
